@@ -973,9 +973,14 @@ impl<'de, R: Read<'de>> Parser<R> {
                         self.eat_char();
                         // End of input counts as a delimiter here; a NUL byte is
                         // an ordinary symbol constituent, as it is outside of lists.
-                        if self.peek()?.map_or(true, is_delimiter) {
+                        let next = self.peek()?;
+                        if next.map_or(true, is_delimiter) {
                             if !have_value {
-                                return Err(self.peek_error(ErrorCode::ExpectedSomeValue));
+                                // At the end of input, `(.` may still become `(.a`
+                                return Err(self.peek_error(match next {
+                                    None => ErrorCode::EofWhileParsingList,
+                                    Some(_) => ErrorCode::ExpectedSomeValue,
+                                }));
                             }
                             pair.set_cdr(self.expect_value()?);
                             match self.parse_whitespace()? {
@@ -1038,9 +1043,14 @@ impl<'de, R: Read<'de>> Parser<R> {
                         self.eat_char();
                         // End of input counts as a delimiter here; a NUL byte is
                         // an ordinary symbol constituent, as it is outside of lists.
-                        if self.peek()?.map_or(true, is_delimiter) {
+                        let next = self.peek()?;
+                        if next.map_or(true, is_delimiter) {
                             if !have_value {
-                                return Err(self.peek_error(ErrorCode::ExpectedSomeValue));
+                                // At the end of input, `(.` may still become `(.a`
+                                return Err(self.peek_error(match next {
+                                    None => ErrorCode::EofWhileParsingList,
+                                    Some(_) => ErrorCode::ExpectedSomeValue,
+                                }));
                             }
                             let (cdr, cdr_meta) = self.expect_datum()?.into_inner();
                             pair.set_cdr(cdr);
